@@ -613,12 +613,18 @@ def run_check(pid, tier, seed):
 
     # 6. decide
     new_viol = []
+    departed = []        # the clause of a listed finding, but on an input where the implementation has left the model
     known_hit = {}
     for r in violations:
         for cl, detail in r['viol']:
             sig = R.signature(r['case'], cl)
-            if sig in known_sigs:
+            if sig in known_sigs and not r['diff']:
                 known_hit[sig] = known_hit.get(sig, 0) + 1
+            elif sig in known_sigs:
+                # A listed finding describes behaviour of the recorded code, and the model is that code: where the
+                # implementation's answer differs from the model's on this very input, the failure is not the listed one
+                # (a different violation of the same property must still be reported).
+                departed.append((r, cl, detail, sig))
             else:
                 new_viol.append((r, cl, detail, sig))
     for sig, cnt in known_hit.items():
@@ -627,8 +633,11 @@ def run_check(pid, tier, seed):
             R.say(f'KNOWN-FINDING: property={pid} {k["what"]}')
             printed.append(k['id'])
 
-    def report_violation(r, cl, detail, sig, origin):
+    def report_violation(r, cl, detail, sig, origin, need_diff=False):
         def still_fails(c):
+            if need_diff:
+                rec = R.eval_cases([c], with_model=True)[0]
+                return bool(rec['diff']) and any(R.signature(c, c2) == sig for c2, _ in rec['viol'])
             io = mod.impl(c)
             return any(R.signature(c, c2) == sig for c2, _ in (mod.oracle(c, io) or []))
         small = R.shrink(r['case'], still_fails)
@@ -641,13 +650,20 @@ def run_check(pid, tier, seed):
                             'broken': broken})
         R.say(f'VIOLATION property={pid} replay={p}')
 
-    if new_viol:
+    if new_viol or departed:
         seen = set()
         for r, cl, detail, sig in new_viol:
             if sig in seen:
                 continue
             seen.add(sig)
             report_violation(r, cl, detail, sig, 'oracle on generated cases')
+        for r, cl, detail, sig in departed:
+            if sig in seen:
+                continue
+            seen.add(sig)
+            report_violation(r, cl, detail, sig, 'oracle on a generated case on which the implementation differs from the model of the '
+                             'recorded code (the clause is that of a listed finding, the failing input is not: ' + str(r['diff'])[:300] + ')',
+                             need_diff=True)
         exit_code = 1
     elif broken:
         # failing-input search: more cases with the oracle on the implementation
@@ -665,7 +681,7 @@ def run_check(pid, tier, seed):
                 io = mod.impl(c)
                 v = [(cl, d) for cl, d in (mod.oracle(c, io) or []) if R.signature(c, cl) not in known_sigs]
                 if v:
-                    found = ({'case': c, 'impl': io, 'viol': v}, v[0][0], v[0][1], R.signature(c, v[0][0]))
+                    found = ({'case': c, 'impl': io, 'viol': v, 'diff': None}, v[0][0], v[0][1], R.signature(c, v[0][0]))
                     break
                 if time.time() > t_end:
                     break
@@ -750,6 +766,13 @@ def replay(path):
     print('case    :', json.dumps(data['case']))
     print('observed:', json.dumps(io, default=str))
     print('violated:', v)
+    try:
+        rec = Runner(mod, 'quick', 0).eval_cases([data['case']], with_model=True)[0]
+        if rec['model'] is not None:
+            print('model   :', json.dumps(rec['model'], default=str))
+            print('differs :', rec['diff'])
+    except Exception as e:      # noqa  (the driver may not be built)
+        print('model   : not available (', type(e).__name__, ')')
     return 1 if v else 0
 
 
